@@ -91,6 +91,7 @@ def topo(calls, args):
 
 
 def run(ctx):
+    bundled_stores_release(ctx)
     uberjob = core.use_repo()
     import uberjob._execution.run_physical as rp
     from uberjob import _builtins
@@ -662,3 +663,79 @@ def sentinel(ctx):
     ret = ast.unparse([s for s in f.body if isinstance(s, ast.Return)][0])
     if ret != "return (bound_call_lookup, output_slot)":
         ctx.broke("sentinel: _create_bound_call_lookup_and_output_slot returns something else", {"return": ret})
+
+
+class BigList(list):
+    pass
+
+
+class BigStr(str):
+    pass
+
+
+class BigBytes(bytearray):
+    pass
+
+
+def bundled_stores_release(ctx):
+    """With the bundled file stores (Pickle / Json / Text / Binary, direct and through a MountedStore): once a stored value has been
+    written - and read back, when some call consumes it - nothing of uberjob's (the run, the plan, the registry, THE STORE OBJECT) keeps
+    the computed object alive; checked from a later call of the same run and after the run."""
+    import gc
+    import os
+    import shutil
+    import tempfile
+    import weakref
+    uberjob = core.use_repo()
+    import uberjob.stores as st
+    from uberjob._testing.test_mounted_file_store import TestMountedFileStore
+
+    kinds = {"pickle": (st.PickleFileStore, lambda: BigList([1, 2, 3])), "json": (st.JsonFileStore, lambda: BigList([1, 2, 3])), "text": (st.TextFileStore, lambda: BigStr("text")),
+             "binary": (st.BinaryFileStore, lambda: BigBytes(b"bytes"))}
+    root = tempfile.mkdtemp(prefix="ujc16s_")
+    try:
+        n = 0
+        for kind, (cls, mk) in kinds.items():
+            for mounted in (False, True):
+                for consumed in (False, True):
+                    for workers in (1, 3):
+                        n += 1
+                        box, verdict = {}, {}
+
+                        def make():
+                            o = mk()
+                            box["wr"] = weakref.ref(o)
+                            return o
+
+                        def later():
+                            gc.collect()
+                            verdict["during"] = box["wr"]() is None
+                            return 0
+                        path = os.path.join(root, "v%d.dat" % n)
+                        store = TestMountedFileStore(cls) if mounted else cls(path)
+                        plan, reg = uberjob.Plan(), uberjob.Registry()
+                        v = plan.call(make)
+                        reg.add(v, store)
+                        outs = []
+                        if consumed:
+                            use = plan.call(len, v)
+                            outs.append(use)
+                        probe = plan.call(later)
+                        plan.add_dependency(outs[-1] if consumed else v, probe)
+                        outs.append(probe)
+                        ctx.case(("c16-bundled-store", kind, mounted, consumed, workers))
+                        try:
+                            uberjob.run(plan, registry=reg, output=outs, max_workers=workers, progress=None)
+                            oc = "ok"
+                        except BaseException as e:      # noqa
+                            oc = "raised %s: %r" % (type(e).__name__, getattr(e, "__cause__", None))
+                        gc.collect()
+                        after = box.get("wr", lambda: None)() is None
+                        if oc != "ok" or not verdict.get("during", False) or not after:
+                            ctx.fail("bundled-store:retained", "%s store%s, the stored value %s: run %s; the computed object was %s when a later call of the run looked, and %s after the run "
+                                     "(plan, registry and store still referenced by the caller)" % (kind, " behind a MountedStore" if mounted else "", "consumed by a call" if consumed else "not consumed by any call",
+                                                                                               oc, "released" if verdict.get("during") else "STILL ALIVE", "released" if after else "STILL ALIVE"),
+                                     {"store": kind, "mounted": mounted, "consumed": consumed, "max_workers": workers})
+                        del plan, reg, store
+    finally:
+        shutil.rmtree(root, ignore_errors=True)
